@@ -776,8 +776,8 @@ def shrink_corr(ctx, ch: dict) -> dict:
 # ------------------------------------------------------------------------------------------------
 def body(ctx):
     check_tie(ctx)
-    run_parse(ctx, ctx.scale(350, 4000))
-    run_chains(ctx, ctx.scale(400, 5000))
+    run_parse(ctx, ctx.scale(600, 5000))
+    run_chains(ctx, ctx.scale(900, 8000))
 
 
 def run(ctx: common.Ctx):
